@@ -1546,6 +1546,8 @@ fn main() {
                         s.attrs.extend(extra_attrs.iter().cloned());
                     }
                     syn::Item::Const(s) => {
+                        // the elided lifetime of a reference-typed const is 'static; make it explicit (Verus turns consts into functions)
+                        if let syn::Type::Reference(r) = &mut *s.ty { if r.lifetime.is_none() { r.lifetime = Some(syn::parse_quote!('static)); } }
                         rw.filter_attrs(&mut s.attrs);
                         s.vis = syn::parse_quote!(pub);
                         s.attrs.push(syn::parse_quote!(#[verus_verify]));
